@@ -105,6 +105,12 @@ Fixpoint enc (t : ty) (v : val) {struct t} : option (list cell) :=
         | None => None
         end
       else None
+  (* a reference occupies one slot, a union reference two; WHAT the slot holds depends on where the
+     referent lies (it is an offset relative to the slot): the image leaves those cells open, the
+     condition on them is [targets_ok] in RoundTrip.v *)
+  | TRef _, (VNull | VRef _) => Some (pad 8)
+  | TUnion ms, VNull => Some (pad 16)
+  | TUnion ms, VMember k _ => if (k <? length ms)%nat then Some (pad 16) else None
   | _, _ => None
   end.
 
